@@ -63,7 +63,7 @@ def gen(tier, rng):
         tg = targets if kind not in ('hyb',) else [t for t in targets if len(t) == 2]
         for ln in range(1, L + 1):
             seqs = list(itertools.product(range(len(tg)), repeat=ln))
-            cap = 120 if tier == 'quick' else 1500
+            cap = (200 if ln <= 2 else 120) if tier == 'quick' else 1500   # all ordered pairs of targets are always covered
             if len(seqs) > cap:
                 seqs = rng.sample(seqs, cap)
             for sq in seqs:
@@ -83,6 +83,8 @@ def gen(tier, rng):
                     ops.append('copy' if kind != 'dyn' else 'fill:1')
                 elif kind not in ('hyb',):
                     ops.append('copy')
+                if kind not in ('hyb', 'dyn'):
+                    ops.append('probe')
                 n += 1
                 yield mk(kind, ops, hs[n % 2], tags=['len=%d' % ln])
     # writes at every index for kinds where the target is accepted from the initial state
